@@ -134,12 +134,7 @@ def run(facts, tr, rep):
         nleave += 1
         rep.saw(b_)
         name = b_.def_.split("::")[-1]
-        sbb, ssw = cb.state_arms(b_)
-        arm = "*"
-        if ssw is not None:
-            for v in ("Closed", "Open", "HalfOpen"):
-                if cb.in_arm(b_, sbb, ssw, v, cs.bb):
-                    arm = v
+        arm = cb.arm_of(b_, cs.bb)[0]
         ok = (name, arm) in allowed_leave
         rep.ob("C03.LEAVE-OPEN", skey(b_, "transition->%s@%s" % (tgt, arm)), ok, cs.where(),
                "transition to %s from %s[%s] cannot take the breaker out of Open early" % (tgt, name, arm) if ok else
